@@ -4,23 +4,34 @@ import LitexProofs.Stream.HandshakePacketizer
 
   With `source.ready = 0` no register moves (`sink_d` is loaded on `source.ready` only; IDLE rewrites `count` with the
   value it is not looking at), and every state shows either registers or the refused — hence held — sink token.
-  One exception, which is why the statement carries `FlushHeld`: in UNALIGNED-DATA-COPY, while the residue beat of a
-  packet is flushed (`sink_d.last = 1`), `source.valid` is high *without* `sink.valid`, and the upper bytes of
-  `source.data` (padding behind the packet's last byte) are wired to the sink data lines of a producer that is not
-  offering anything.  If those lines move while the flush beat waits, `source.data` moves (negative witness in
-  `LitexProps/C04.lean`).
+  The flush beat of UNALIGNED-DATA-COPY (`sink_d.last`: `source.valid` high *without* `sink.valid`) shows registers
+  only since the fix of C04-packetizer-flush-padding-unstable (`If(~sink_d.last, source.data[leftover*8:].eq(sink.data))`);
+  before it the upper (padding) lanes followed the sink data lines of a producer that offers nothing — `pkUDataPre` is
+  that old expression, kept for the negative witness in `LitexProps/C04.lean`.
 -/
 namespace Litex.Packet
 open Litex Litex.Stream Litex.Stream.Elem
 
-/-- While the flush beat waits (`sink_d.last`, no sink token, consumer stalls) the idle sink data lines are held. -/
-def FlushHeld (c : PkCfg) (s : PkState) (i i' : In HBeat) : Prop :=
-  s.st = .ucopy → s.dLast = true → i.valid = false → i.ready = false →
-    i'.tok.data.data % 2 ^ c.dw = i.tok.data.data % 2 ^ c.dw
+/-- `source.data` of UNALIGNED-DATA-COPY as it was BEFORE the fix (upper lanes always from the sink data lines). -/
+def PkCfg.pkUDataPre (c : PkCfg) (s : PkState) (d : Nat) : Nat :=
+  let lw := max (8 * c.L) 1
+  let low := if s.fromIdle then c.srFrom ((if c.W == 1 then 1 else 2) * c.dw) s.sr
+             else s.dData / 2 ^ (min ((c.B - c.L) * 8) (c.dw - 1))
+  low % 2 ^ lw + 2 ^ (8 * c.L) * (d % 2 ^ (c.dw - 8 * c.L))
 
-theorem packetizer_stepStableX (c : PkCfg) : StepStableX (packetizer c) (fun _ => True) (FlushHeld c) where
+/-- The fix changes nothing outside the flush beat. -/
+theorem pkUData_eq_pre (c : PkCfg) (s : PkState) (d : Nat) (h : s.dLast = false) :
+    c.pkUData s d = c.pkUDataPre s d := by
+  simp [PkCfg.pkUData, PkCfg.pkUDataPre, h]
+
+/-- On the flush beat the source data is a function of the registers alone. -/
+theorem pkUData_flush (c : PkCfg) (s : PkState) (d d' : Nat) (h : s.dLast = true) :
+    c.pkUData s d = c.pkUData s d' := by
+  simp [PkCfg.pkUData, h]
+
+theorem packetizer_stepStable_all (c : PkCfg) : StepStable (packetizer c) (fun _ => True) where
   inv_step _ _ _ := trivial
-  hold s i i' _ hin hx := by
+  hold s i i' _ hin := by
     obtain ⟨st, sr, cnt, fi, dd, dl⟩ := s
     obtain ⟨iv, it, ir⟩ := i
     obtain ⟨jv, jt, jr⟩ := i'
@@ -55,12 +66,8 @@ theorem packetizer_stepStableX (c : PkCfg) : StepStableX (packetizer c) (fun _ =
         simp
       | false =>
         have hdl : dl = true := by simpa using hv
-        have hd : jt.data.data % 2 ^ c.dw = it.data.data % 2 ^ c.dw := hx rfl hdl rfl rfl
         subst hdl
-        simp [PkCfg.pkUData, hd]
-
-theorem packetizer_keepsContractX (c : PkCfg) : KeepsContractX (packetizer c) (FlushHeld c) :=
-  keepsContractX_of_stepStable (packetizer_stepStableX c) trivial
+        simp [PkCfg.pkUData]
 
 /-- In every state and for every header length a cooperative cycle delivers a beat (header word, payload beat or
     flush beat).  Note that this is *not* "the sink is served": see the negative witness in `LitexProps/C04.lean`
